@@ -71,15 +71,18 @@ func longForm(c *Case) string {
 }
 
 func restResolveDID(c *Case, did string, pub, unpub []*operation.AnchoredOperation, query url.Values) (status int, body map[string]interface{}, panicked string) {
+	return restResolveRaw(c, did, pub, unpub, query.Encode())
+}
+
+// restResolveRaw sends the query string as it is (also one that a lenient reader would partly drop).
+func restResolveRaw(c *Case, did string, pub, unpub []*operation.AnchoredOperation, rawQuery string) (status int, body map[string]interface{}, panicked string) {
 	pc := c.Client()
 	proc := processor.New("verif", &wire.SliceStore{Ops: pub}, pc, processor.WithUnpublishedOperationStore(&unpubOps{ops: unpub}))
 	dh := dochandler.New(restNS, nil, pc, noWriter{}, proc, wire.DocMetrics{})
 	h := restdoc.NewResolveHandler(dh, restMetrics{})
 	u := "/identifiers/" + did
-	if len(query) > 0 {
-		u += "?" + query.Encode()
-	}
 	req := httptest.NewRequest(http.MethodGet, u, nil)
+	req.URL.RawQuery = rawQuery
 	req = mux.SetURLVars(req, map[string]string{"id": did})
 	rw := httptest.NewRecorder()
 	panicked = ev.Catch(func() { h.Resolve(rw, req) })
